@@ -3,3 +3,4 @@ PROPERTY_RULES = {
     "C05": ["r28_dispatch"],
 }
 PROPERTY_RULES["C03"] = ["r01_leak"]
+PROPERTY_RULES["C15"] = ["r08_index"]
